@@ -3,7 +3,7 @@
 package http2
 
 // C13 on the real HTTP/2 server loop, multi-step and on the wire: a sequence of client frames
-// (every one of an alphabet of 19 frames, legal and illegal, on streams 0..3) is fed one frame at
+// (every one of an alphabet of 20 frames, legal and illegal, on streams 0..3) is fed one frame at
 // a time to the real server; after each frame what the server put on the wire (RST_STREAM,
 // GOAWAY) and how many handlers it started is compared with a reference model of the RFC
 // 7540/9113 stream states. Handlers block until the end, so streams stay in the state the
@@ -65,7 +65,7 @@ func svReaction(out []byte, from int) (r svReact, n int) {
 	return r, len(recs)
 }
 
-const svLetters = 19
+const svLetters = 20
 
 func svLetter(k int) (frame []byte, sid uint32) {
 	req := svReqBlock(false)
@@ -108,6 +108,8 @@ func svLetter(k int) (frame []byte, sid uint32) {
 		return svFrame(FrameType(0x42), 0, 1, 9, 9), 1
 	case 18:
 		return svFrame(FrameGoAway, 0, 0, append(svU32(0), svU32(0)...)...), 0
+	case 19: // a request that declares a body of 3 bytes (content-length: literal with indexed name 28)
+		return svFrame(FrameHeaders, FlagHeadersEndHeaders, 1, append(svReqBlock(true), 0x0f, 0x0d, 1, '3')...), 1
 	}
 	return nil, 0
 }
@@ -138,8 +140,8 @@ func (m *svModel) expect(k int) (wantNone bool, seCodes []ErrCode, ceCodes []Err
 		return true, nil, nil, false, false
 	}
 	switch k {
-	case 0, 1, 2, 10: // HEADERS on an odd stream
-		end := k != 1
+	case 0, 1, 2, 10, 19: // HEADERS on an odd stream
+		end := k != 1 && k != 19
 		switch {
 		case m.grace && idle(sid):
 			return true, nil, nil, false, false // new streams after GOAWAY are ignored
